@@ -102,7 +102,7 @@ Lemma simple_key_dispatch (inner : parser bytes) b t' s r p d :
   inner (mkIn ((b :: t') ++ r) p d) = Ok s (after (b :: t') r p d) ->
   simple_key (mkIn ((b :: t') ++ r) p d) = Ok (key_result (b :: t') s p) (after (b :: t') r p d).
 Proof.
-  intros Hd Hi. unfold simple_key, pmap, with_span.
+  intros Hd Hi. unfold simple_key, pmap, with_span, context.
   assert (Hp : peek any (mkIn ((b :: t') ++ r) p d) = Ok b (mkIn ((b :: t') ++ r) p d)).
   { cbn [app]. eapply peek_ok. apply any_cons. }
   rewrite (bind_ok _ _ _ _ _ Hp). rewrite Hd, Hi. reflexivity.
